@@ -201,13 +201,11 @@ def run_driver(driver: str, lines: list[str], timeout=1800) -> list[str]:
 
 
 def load_known(pid: str) -> list[dict]:
-    """Known findings are committed files, never written at run time:
-    KNOWN_FINDINGS.json plus known_findings/<pid>.json (same format)."""
-    out = []
-    for f in [KNOWN, VERIF / "known_findings" / f"{pid}.json"]:
-        if f.exists():
-            out += [e for e in json.loads(f.read_text())["findings"] if e["property"] == pid]
-    return out
+    """Known findings live in one committed file, KNOWN_FINDINGS.json (generated by bin/mkknown
+    from the per-property sources known_findings/Cxx.json); it is never written at run time."""
+    if not KNOWN.exists():
+        return []
+    return [e for e in json.loads(KNOWN.read_text())["findings"] if e["property"] == pid]
 
 
 # --------------------------------------------------------------------------- the check object
